@@ -18,9 +18,24 @@ class Resp:
         self._p = payload
         self.headers = headers or {}
         self.status_code = 200
+        self.ok = True
+        self.reason = "OK"
+        self.url = None
 
     def json(self):
         return self._p
+
+    def raise_for_status(self):
+        return None
+
+    @property
+    def text(self):
+        import json as _j
+        return _j.dumps(self._p)
+
+    @property
+    def content(self):
+        return self.text.encode()
 
 
 class WhereError(Exception):
@@ -74,8 +89,24 @@ class FakeRequests:
         self.log = []
         self.errors = []
 
-    def get(self, url, auth=None, **kw):
-        self.log.append({"url": url, "auth": auth, "method": "GET"})
+    def __getattr__(self, name):
+        # anything else a client may look up on the `requests` module (exceptions, codes, adapters ...) is the real module's
+        import requests as _real
+        return getattr(_real, name)
+
+    def Session(self):
+        return _FakeSession(self)
+
+    session = Session
+
+    def request(self, method, url, **kw):
+        return self.head(url, **kw) if str(method).upper() == "HEAD" else self.get(url, **kw)
+
+    def get(self, url, params=None, auth=None, headers=None, **kw):
+        if params:
+            from urllib.parse import urlencode
+            url = url + ("&" if "?" in url else "?") + urlencode(params)
+        self.log.append({"url": url, "auth": auth if auth is not None else headers, "method": "GET"})
         u = urlsplit(url)
         q = parse_qs(u.query, keep_blank_values=True)
         page = int(q.get("page", ["1"])[0])
@@ -134,8 +165,8 @@ class FakeRequests:
             payload["_meta"] = {"page": page, "max_results": size, "total": total}
         return Resp(payload)
 
-    def head(self, url, headers=None, **kw):
-        self.log.append({"url": url, "auth": headers, "method": "HEAD"})
+    def head(self, url, headers=None, auth=None, **kw):
+        self.log.append({"url": url, "auth": headers if headers is not None else auth, "method": "HEAD"})
         u = urlsplit(url)
         q = parse_qs(u.query, keep_blank_values=True)
         items = list(self.docs)
@@ -145,6 +176,40 @@ class FakeRequests:
             except WhereError as e:
                 self.errors.append(f"unparseable where clause: {e}")
         return Resp({}, headers={"x-total-count": str(len(items))})
+
+
+class _FakeSession:
+    """requests.Session() stand-in: session-level auth / headers are merged into each call."""
+
+    def __init__(self, fake):
+        self._fake = fake
+        self.auth = None
+        self.headers = {}
+        self.params = {}
+
+    def __enter__(self):
+        return self
+
+    def __exit__(self, *a):
+        return False
+
+    def close(self):
+        pass
+
+    def mount(self, *a, **k):
+        pass
+
+    def get(self, url, params=None, auth=None, headers=None, **kw):
+        p = dict(self.params or {}, **(params or {}))
+        h = dict(self.headers or {}, **(headers or {}))
+        return self._fake.get(url, params=p or None, auth=auth if auth is not None else self.auth, headers=h or None, **kw)
+
+    def head(self, url, headers=None, auth=None, **kw):
+        h = dict(self.headers or {}, **(headers or {}))
+        return self._fake.head(url, headers=h or None, auth=auth if auth is not None else self.auth, **kw)
+
+    def request(self, method, url, **kw):
+        return self.head(url, **kw) if str(method).upper() == "HEAD" else self.get(url, **kw)
 
 
 class Installed:
